@@ -244,7 +244,9 @@ async fn run_case(ctx: &mut Ctx, c: &Case) {
             }
             HtlcAcceptedResponse::Continue { payload: None } => {}
             HtlcAcceptedResponse::Fail { failure_message } => {
-                let self_case = view.as_ref().map(|v| v.self_last && !c.allow).unwrap_or(false);
+                // the self-route-hint failure is only for requests that would otherwise be trampoline payments: a plain forward
+                // (short_channel_id present) passes through whatever its metadata says (C13)
+                let self_case = !c.scid && view.as_ref().map(|v| v.self_last && !c.allow).unwrap_or(false);
                 if !(self_case && *failure_message == vec![0x20, 2]) {
                     ctx.violation("C13,C10", "fail-non-trampoline", &format!("non-trampoline htlc failed with {} {}", hex(failure_message), replay));
                 }
